@@ -18,7 +18,7 @@ import (
 func init() {
 	fw.Register(&fw.Check{
 		ID: "C13", Level: "model_checking",
-		Rule: "(a) ALL ordered selections of 1..2 (quick) / 1..3 (thorough) paths from {/a, /a/{id}, /a/{id}/b, /a/{id}/b/{n}, /{id}, /{id}/{n}, /b/{n}} x form {path-bearing method, URL block with the Path at URL level, URL block with the Path at method level} x every subset of each path's parameters declared by its Path directive (inline object or reference to an object type): expected verdict (a prefix declared twice => rejected) and expected pathVariables of every interaction (exactly the declared segments, in path order, with the declared example value) from the reference binding; (b) faulty variants (property matching no segment, {} and repeated {name}, nested object / array property, reference to a scalar or undefined type, additionalProperties / nullable / or rules, empty object): rejected; (c) the path-parameter splitter against the reference on ALL strings of length <= 7 (quick) / 8 (thorough) over {/ { } a}; non-trivial = project with at least one declared parameter; distinct = distinct documents / strings",
+		Rule: "(a) ALL ordered selections of 1..2 (quick) / 1..3 (thorough) paths from {/a, /a/{id}, /a/{id}/b, /a/{id}/b/{n}, /{id}, /{id}/{n}, /b/{n}} x form {path-bearing method, URL block with the Path at URL level, URL block with the Path at method level} x every subset of each path's parameters declared by its Path directive (inline object, reference to an object type, alias chain of 2..3 references; types declared before / after the use): expected verdict (a prefix declared twice => rejected) and expected pathVariables of every interaction (exactly the declared segments, in path order, with the declared example value) from the reference binding; (b) faulty variants (property matching no segment, {} and repeated {name}, nested object / array property, reference to a scalar or undefined type, additionalProperties / nullable / or rules, empty object): rejected; (c) the path-parameter splitter against the reference on ALL strings of length <= 7 (quick) / 8 (thorough) over {/ { } a}; non-trivial = project with at least one declared parameter; distinct = distinct documents / strings",
 		Run:  runC13, QuickCap: 8 * time.Minute, ThoroughCap: 40 * time.Minute,
 	})
 }
@@ -61,7 +61,8 @@ func runC13(c *fw.Ctx) {
 		path   string
 		form   int // 0 path-bearing method, 1 URL + Path at URL level, 2 URL + Path at method level
 		subset int // bit mask over the path's parameters
-		viaRef bool
+		refDepth   int  // 0 inline object, 1 reference to an object type, 2..3 reference to a type that is itself a reference (alias chain)
+		typesAfter bool // the referenced types are declared after the interaction
 	}
 	var sel []item
 	valueOf := func(itemIdx, paramIdx int) int { return 100*(itemIdx+1) + paramIdx + 1 }
@@ -73,6 +74,7 @@ func runC13(c *fw.Ctx) {
 		c.Count("evaluations", 1)
 		n := doc.N
 		nodes := []*doc.Node{doc.Jsight()}
+		var trailing []*doc.Node
 		declared := map[string]int{} // prefix -> value
 		dupl := false
 		anyDecl := false
@@ -92,10 +94,21 @@ func runC13(c *fw.Ctx) {
 			var pathNode *doc.Node
 			if len(props) > 0 {
 				body := "{\n" + strings.Join(props, ",\n") + "\n}"
-				if it.viaRef {
-					tn := fmt.Sprintf("@pv%d", i)
-					nodes = append(nodes, n("TYPE", tn).WithBody(body))
-					pathNode = n("Path").WithBody(tn)
+				if it.refDepth > 0 {
+					var tt []*doc.Node
+					for d := 1; d <= it.refDepth; d++ {
+						b := body
+						if d < it.refDepth {
+							b = fmt.Sprintf("@pv%d_%d", i, d+1)
+						}
+						tt = append(tt, n("TYPE", fmt.Sprintf("@pv%d_%d", i, d)).WithBody(b))
+					}
+					if it.typesAfter {
+						trailing = append(trailing, tt...)
+					} else {
+						nodes = append(nodes, tt...)
+					}
+					pathNode = n("Path").WithBody(fmt.Sprintf("@pv%d_1", i))
 				} else {
 					pathNode = n("Path").WithBody(body)
 				}
@@ -125,6 +138,7 @@ func runC13(c *fw.Ctx) {
 				nodes = append(nodes, u)
 			}
 		}
+		nodes = append(nodes, trailing...)
 		text := doc.Text(nodes)
 		label := fmt.Sprint(sel)
 		c.Describe(label)
@@ -209,13 +223,15 @@ func runC13(c *fw.Ctx) {
 					if subset == 0 && form == 2 {
 						continue // same document as form 1 without a Path
 					}
-					for _, viaRef := range []bool{false, true} {
-						if viaRef && subset == 0 {
-							continue
+					for refDepth := 0; refDepth <= 3; refDepth++ {
+						for _, after := range []bool{false, true} {
+							if refDepth > 0 && subset == 0 || refDepth == 0 && after {
+								continue
+							}
+							sel = append(sel, item{p, form, subset, refDepth, after})
+							rec(k - 1)
+							sel = sel[:len(sel)-1]
 						}
-						sel = append(sel, item{p, form, subset, viaRef})
-						rec(k - 1)
-						sel = sel[:len(sel)-1]
 					}
 				}
 			}
